@@ -456,6 +456,10 @@ func Fixed() []Scenario {
 		// a marker in order, a marker lost (recovered by the difference's state), a late marker (outdated)
 		{P0: 10, Q0: 0, C0: map[int64]int{5: 5}, Log: []Entry{{ID: 1, Kind: KAff, Pos: 11, Count: 1}, {ID: 2, Kind: KMsg, Pos: 12, Count: 1}, {ID: 3, Kind: KAff, Pos: 13, Count: 1}, {ID: 4, Kind: KChAff, Chan: 5, Pos: 7, Count: 2}, {ID: 5, Kind: KChMsg, Chan: 5, Pos: 8, Count: 1}},
 			Actions: []Action{{Op: "a", IDs: []int{1}}, {Op: "p", IDs: []int{2}}, {Op: "e", N: 3}, {Op: "T"}, {Op: "a", IDs: []int{3}}, {Op: "CT", C: 5}, {Op: "a", IDs: []int{4}}}},
+		// transient RPC failures: of the gap-timeout difference of a channel, of a forced channel
+		// recovery, of the common gap-timeout difference; later recoveries must still work
+		{P0: 10, Q0: 0, C0: map[int64]int{5: 5}, Log: []Entry{{ID: 1, Kind: KChMsg, Chan: 5, Pos: 6, Count: 1}, {ID: 2, Kind: KChMsg, Chan: 5, Pos: 7, Count: 1}, {ID: 3, Kind: KMsg, Pos: 11, Count: 1}, {ID: 4, Kind: KMsg, Pos: 12, Count: 1}},
+			Actions: []Action{{Op: "p", IDs: []int{2}}, {Op: "p", IDs: []int{4}}, {Op: "ERR", C: 5}, {Op: "ERR", C: 0}, {Op: "F"}, {Op: "ERR", C: 5}, {Op: "CT", C: 5}, {Op: "ERR", C: 0}, {Op: "T"}}},
 		// differences that forward updates of OTHER sequences: channel 5's difference carries a later
 		// update of channel 8, a common pts update and a position-less one; the common difference carries
 		// channel updates, one of an unknown channel; everything also arrives by its own way later
